@@ -79,6 +79,27 @@ Proof.
       rewrite E, IH. reflexivity.
 Qed.
 
+Lemma lookup_replace_same k v m x : lookup m k = Some x -> lookup (replace_key k v m) k = Some v.
+Proof.
+  induction m as [|[k2 v2] m IH]; cbn; [discriminate|].
+  destruct (String.eqb k k2) eqn:E; cbn; [rewrite String.eqb_refl; reflexivity|]. rewrite E. exact IH.
+Qed.
+Lemma lookup_replace_other k v m k0 : String.eqb k0 k = false -> lookup (replace_key k v m) k0 = lookup m k0.
+Proof.
+  intro H. induction m as [|[k2 v2] m IH]; cbn; [reflexivity|].
+  destruct (String.eqb k k2) eqn:E; cbn.
+  - apply String.eqb_eq in E. subst. rewrite H. reflexivity.
+  - rewrite IH. reflexivity.
+Qed.
+Lemma lookup_put_same k v m : lookup (put_key k v m) k = Some v.
+Proof.
+  unfold put_key. destruct (lookup m k) eqn:E; [eapply lookup_replace_same; eauto|apply lookup_set_key_same].
+Qed.
+Lemma lookup_put_other k v m k0 : String.eqb k0 k = false -> lookup (put_key k v m) k0 = lookup m k0.
+Proof.
+  intro H. unfold put_key. destruct (lookup m k); [apply lookup_replace_other|apply lookup_set_key_other]; exact H.
+Qed.
+
 (* ---------- the typed proof is read back from what JSONLdObject emits ---------- *)
 Section Fields.
   Variable p : lproof.
